@@ -43,22 +43,22 @@ func (c20) Exhaustive(tier string) (bool, string) {
 
 func (c20) Thresholds(tier string) map[string]int64 {
 	return map[string]int64{
-		"exhaustive-sequences":           1 << 18,
-		"queue-ops":                      3000000,
-		"queue-growths":                  8000,
-		"queue-growths-with-wrapped-head": 6000,
+		"exhaustive-sequences":              1 << 18,
+		"queue-ops":                         3000000,
+		"queue-growths":                     8000,
+		"queue-growths-with-wrapped-head":   6000,
 		"sequences-with>=2-wrapped-growths": 200,
-		"stack-ops":                      50000,
-		"stack-clear":                    500,
-		"stack-pushall":                  1000,
-		"inputs-tokenised":               8000,
-		"inputs-with-indent":             2000,
-		"tokens":                         1000000,
-		"indent-tokens":                  20000,
-		"multi-level-dedent>=3":          500,
-		"lexer-queue-grew":               50,
-		"hostile-inputs-tokenised":       3000,
-		"eof-repeated-calls":             8000,
+		"stack-ops":                         50000,
+		"stack-clear":                       500,
+		"stack-pushall":                     1000,
+		"inputs-tokenised":                  8000,
+		"inputs-with-indent":                2000,
+		"tokens":                            1000000,
+		"indent-tokens":                     20000,
+		"multi-level-dedent>=3":             500,
+		"lexer-queue-grew":                  50,
+		"hostile-inputs-tokenised":          3000,
+		"eof-repeated-calls":                8000,
 	}
 }
 
